@@ -299,6 +299,19 @@ TypedValue evaluate_binary_op_typed(
         }
     }
 
+    // The other arithmetic and the bitwise operators have no meaning for a
+    // string: the string operand counted as the number 0 and the result came
+    // back as a number carrying the string type ("raw buffer at that
+    // address"), which crashed at its first use. Comparisons and && / ||
+    // are handled below and keep working.
+    if ((left_value.is_string() || right_value.is_string()) &&
+        (node->op == "-" || node->op == "*" || node->op == "/" ||
+         node->op == "%" || node->op == "&" || node->op == "|" ||
+         node->op == "^" || node->op == "<<" || node->op == ">>")) {
+        throw std::runtime_error("Type mismatch: operator '" + node->op +
+                                 "' cannot be applied to a string");
+    }
+
     // ポインタ演算の特別処理
     if (node->op == "+" || node->op == "-") {
         // 左オペランドがポインタの場合
